@@ -11,6 +11,8 @@
          Every case is run with two fill patterns of the freshly allocated decoder state.
      R <id> <n> <byte>*n
          round trip: encode, check trailer, decode, compare; prints the encoding for the spec-side parser.
+     X <id> <n> <byte>*n
+         decode a stream produced elsewhere (MIR_write); prints ok flag and the decoded bytes.
      M <id> <stride> <n> <byte>*n
          encode, then decode every truncation, every single-byte substitution (6 values) and two one-byte
          extensions at every stride-th position (all positions if stride=1, always the first/last 64);
@@ -138,6 +140,14 @@ static void case_R (char *p) {
   free (in); free (enc.p);
 }
 
+static void case_X (char *p) {
+  long id = next_num (&p), n = next_num (&p);
+  uint8_t *in = read_bytes (&p, n);
+  int ok = do_decode (in, n, 0xA5);
+  outf ("DEC %ld %d ", id, ok); out_hex (wr_b.p, wr_b.len); outf ("\n");
+  free (in);
+}
+
 static const int subst_vals[6] = {0x00, 0x01, 0x1f, 0x80, 0xe0, 0xff};
 static int iso_mode, iso_fd;      /* set when a whole M case died: report before/after every mutation */
 static long mut_skip, mut_index;
@@ -211,6 +221,7 @@ static void run_line (char *line) {
   case 'D': case_D (p); break;
   case 'R': case_R (p); break;
   case 'M': case_M (p); break;
+  case 'X': case_X (p); break;
   default: break;
   }
 }
